@@ -12,6 +12,23 @@ from pywbem import (CIMClass, CIMInstance, CIMInstanceName, CIMProperty,
 from mockrepo import NS1, NS2
 
 BADNS = "root/nonexistent"
+# a third namespace with just enough schema for an association that spans
+# three namespaces (VTern: a -> NS1, b -> NS3, x -> NS2)
+NS3 = "root/v3"
+NS3_MOF = """
+Qualifier Key : boolean = false, Scope(property, reference),
+    Flavor(DisableOverride, ToSubclass);
+Qualifier Association : boolean = false, Scope(association),
+    Flavor(DisableOverride, ToSubclass);
+class VA { [Key] uint32 k; string s; };
+class VX { [Key] string name; [Key] uint16 n; string note; };
+[Association] class VTern {
+    [Key] VA REF a;
+    [Key] VA REF b;
+    [Key] VX REF x;
+};
+instance of VA { k = 1; s = "a1-in-v3"; };
+"""
 
 
 def keyprop():
@@ -62,6 +79,35 @@ def fresh_empty_namespaces_first():
     return copy.deepcopy(_EMPTY_FIRST)
 
 
+def prime(conn):
+    """The part of the start state that all C11 histories share on top of the
+    mockrepo content: an association class keyed by an id, and the third
+    namespace."""
+    mof = ('[Association] class VAssocId { [Key] string id; '
+           'VA REF left; VX REF right; string note; };')
+    for n in (NS1, NS2):
+        conn.compile_mof_string(mof, namespace=n)
+    conn.add_namespace(NS3)
+    conn.compile_mof_string(NS3_MOF, namespace=NS3)
+    return conn
+
+
+_PRIMED = {}
+
+
+def start_state(kind):
+    """A fresh primed connection: kind = "plain", "namespace-provider" or
+    "empty-namespaces-first" (primed once per kind, then deep-copied)."""
+    import copy
+    import mockrepo
+    if kind not in _PRIMED:
+        _PRIMED[kind] = prime(
+            fresh_empty_namespaces_first() if kind == "empty-namespaces-first"
+            else mockrepo.fresh_with_namespace_provider()
+            if kind == "namespace-provider" else mockrepo.fresh())
+    return copy.deepcopy(_PRIMED[kind])
+
+
 class Gen:
     def __init__(self, conn, rng, workdir):
         self.conn = conn
@@ -69,11 +115,8 @@ class Gen:
         self.n = 0
         self.workdir = workdir
         self.force = []
-        # an association class keyed by an id (part of the start state)
-        mof = ('[Association] class VAssocId { [Key] string id; '
-               'VA REF left; VX REF right; string note; };')
-        for n in (NS1, NS2):
-            conn.compile_mof_string(mof, namespace=n)
+        if NS3.lower() not in [n.lower() for n in conn.namespaces]:
+            prime(conn)
 
     def uniq(self):
         self.n += 1
@@ -255,6 +298,28 @@ class Gen:
                 CIMProperty("left", left, reference_class="VA"),
                 CIMProperty("right", _ipath("VX", NS2, name="zz", n=Uint16(9)),
                             reference_class="VX")]), namespace=NS1))
+        # Spec case (MockAtomicImpl, CreateInstanceMultiNsAlias): the lexical
+        # form of the namespace of EVERY reference is a free dimension also
+        # when the references point into another namespace than the call's;
+        # two references into the same other namespace may spell it in two
+        # ways.  Shapes: both references into NS1, created through NS2;
+        # left into NS1, right into NS2, created through NS1.
+        def spell(n):
+            return r.choice([n, n.upper(), n.title()])
+        if r.random() < 0.6:
+            via, lns, rns = NS2, spell(NS1), spell(NS1)
+            rx = _ipath("VX", rns, name="x%d" % x_n, n=Uint16(x_n))
+        else:
+            via, lns, rns = NS1, spell(NS1), spell(NS2)
+            rx = _ipath("VX", rns, name="x1", n=Uint16(1))
+        la = _ipath("VA", lns, k=Uint32(r.choice([1, 2])))
+        for _ in range(3):      # weight inside the CreateInstance family
+            add("CreateInstance", "assoc-multi-namespace-reference-case",
+                lambda: c.CreateInstance(CIMInstance("VAssoc", properties=[
+                    CIMProperty("left", la, reference_class="VA"),
+                    CIMProperty("right", rx, reference_class="VX"),
+                    CIMProperty("note", "mcase")]), namespace=via))
+        out += self.three_namespaces(u, r.choice([1, 2]))
         # ModifyInstance
         mk = r.randint(1, 5)
         mp = _ipath(vn, ns, k=Uint32(mk))
@@ -339,9 +404,117 @@ class Gen:
                     lambda ai=ai: c.ModifyInstance(ai))
                 add("DeleteInstance", "assoc-multi-namespace",
                     lambda ap=ap: c.DeleteInstance(ap.copy()))
+        # multi-namespace associations reached through the OTHER namespace
+        for ap in [p for p in c.cimrepository.get_instance_store(
+                NS2).iter_names() if p.classname.lower() == "vassoc"][:4]:
+            ai = CIMInstance(ap.classname, properties=[
+                CIMProperty("note", "m2%d" % u)], path=ap.copy())
+            add("ModifyInstance", "assoc-multi-namespace",
+                lambda ai=ai: c.ModifyInstance(ai))
+            if r.random() < 0.5:
+                add("DeleteInstance", "assoc-multi-namespace",
+                    lambda ap=ap: c.DeleteInstance(ap.copy()))
         if "interop" in [n.lower() for n in c.namespaces]:
             out += self.namespace_provider(u)
         out += self.batches(ns, u)
+        return out
+
+    def three_namespaces(self, u, a_k):
+        """Spec case (MockAtomicImpl, Modify/DeleteInstanceMultiNs3): an
+        association that spans THREE namespaces.  The copies are visited in
+        the order of the references (the namespace of the call last);
+        "notfound2" = the first visited copy is missing, "notfound3" = a
+        later one is missing after an earlier one was found."""
+        c, r = self.conn, self.rng
+        out = []
+        allns = [NS1, NS3, NS2]           # order of the references a, b, x
+        rep = c.cimrepository
+        if not all(rep.get_class_store(n).object_exists("VTern")
+                   for n in allns):
+            return out
+        kb = dict(a=_ipath("VA", NS1, k=Uint32(a_k)),
+                  b=_ipath("VA", NS3, k=Uint32(1)),
+                  x=_ipath("VX", NS2, name="x1", n=Uint16(1)))
+
+        def inst(via=None):
+            i = CIMInstance("VTern", properties=[
+                CIMProperty("a", kb["a"], reference_class="VA"),
+                CIMProperty("b", kb["b"], reference_class="VA"),
+                CIMProperty("x", kb["x"], reference_class="VX")])
+            if via:
+                i.path = CIMInstanceName("VTern", keybindings=kb,
+                                         namespace=via)
+            return i
+
+        def label(path, via, present):
+            order = [n for n in allns if n != via] + [via]
+            missing = [n for n in order if n not in present]
+            if not missing:
+                return "assoc-three-namespaces"
+            if order.index(missing[0]) == 0:
+                return "assoc-three-namespace-first-copy-missing"
+            return "assoc-three-namespace-later-copy-missing"
+
+        def calls(path, via, present):
+            p = path.copy()
+            p.namespace = via
+            lab = label(p, via, present)
+            return [("ModifyInstance", lab, lambda: c.ModifyInstance(
+                        CIMInstance("VTern", path=p.copy()))),
+                    ("DeleteInstance", lab,
+                     lambda: c.DeleteInstance(p.copy()))]
+
+        via = r.choice(allns)
+        out.append(("CreateInstance", "assoc-three-namespaces",
+                    lambda: c.CreateInstance(inst(), namespace=via)))
+        # the state "a copy is missing": put the instance into one or two of
+        # the three namespaces only; the calls that meet it follow
+        present = r.sample(allns, r.choice([1, 2, 2]))
+        pvia = r.choice(present)
+
+        def where(path):
+            res = []
+            for n in allns:
+                p = path.copy()
+                p.namespace = n
+                if rep.get_instance_store(n).object_exists(p):
+                    res.append(n)
+            return res
+
+        def add_partial():
+            path = inst(pvia).path
+            have = where(path)
+            todo = [n for n in present if n not in have]
+            # (one add_cimobjects call per scenario: a scenario is ONE call)
+            if todo:
+                c.add_cimobjects(inst(todo[0]), namespace=todo[0])
+            have = where(path)
+            if len(todo) > 1:
+                self.force = [
+                    ("add_cimobjects",
+                     "three-namespace-assoc-in-some-namespaces-only",
+                     add_partial)]
+            elif have:
+                self.force = calls(path, pvia if pvia in have else have[0],
+                                   have)
+        for _ in range(2):
+            out.append(("add_cimobjects",
+                        "three-namespace-assoc-in-some-namespaces-only",
+                        add_partial))
+        # ... and from wherever the history already has such instances
+        found = {}
+        for n in allns:
+            for p in list(rep.get_instance_store(n).iter_names()):
+                if p.classname.lower() != "vtern":
+                    continue
+                q = p.copy()
+                q.namespace = None
+                found.setdefault(q.to_wbem_uri(), (q, []))[1].append(n)
+        for q, nss in found.values():
+            spans = set((v.namespace or "").lower()
+                        for v in q.keybindings.values())
+            if len(spans) == 3:
+                out += calls(q, r.choice(nss), nss)
         return out
 
     def namespace_provider(self, u):
@@ -406,6 +579,25 @@ class Gen:
             out.append(("DeleteClass", "CIM_Namespace-provider-rejects",
                         lambda: c.DeleteClass("CIM_Namespace",
                                               namespace="interop")))
+        # Spec case (MockAtomicImpl, DeleteClassSubtree): the subtree of the
+        # deleted class contains an instance-less class (created as the call
+        # before) besides the instances the provider refuses to delete;
+        # the instance-less class below the provider's class or beside it,
+        # the deleted class = the provider's class or its superclass
+        r = self.rng
+        tgt = r.choice(["CIM_Namespace", "CIM_Namespace", "CIM_ManagedElement"])
+        sup = r.choice(["CIM_Namespace", "CIM_Namespace", "CIM_ManagedElement"])
+        sub = CIMClass("VNsSub%d" % u, superclass=sup, properties=[
+            CIMProperty("extra", None, type="uint8")])
+
+        def create_sub():
+            self.force = [
+                ("DeleteClass", "provider-rejects-instanceless-subclass",
+                 lambda: c.DeleteClass(tgt, namespace="interop"))]
+            c.CreateClass(sub, namespace="interop")
+        for _ in range(3):
+            out.append(("CreateClass", "valid-instanceless-class-beside-"
+                        "provider-instances", create_sub))
         out.append(("CreateInstance", "CIM_Namespace-second-interop",
                     lambda: c.CreateInstance(nsinst("root/interop"),
                                              namespace="interop")))
